@@ -25,15 +25,32 @@ RULE = (
     "alternatives (and strings containing one). non-trivial = every pinned case; distinct = sha256(root, JSON)"
 )
 
-SHAPES_QUICK = ["min", "max"] + ["rand"] * 6
-SHAPES_THOROUGH = ["min", "max"] + ["rand"] * 60
+SHAPES_QUICK = ["min", "max"] + ["rand"] * 6 + [f"hetero{i}" for i in range(6)] * 2
+SHAPES_THOROUGH = ["min", "max"] + ["rand"] * 60 + [f"hetero{i}" for i in range(6)] * 8
+
+
+HETERO_PATTERNS = [("min", "max"), ("max", "min"), ("min", "rand", "max"), ("max", "rand", "min"), ("rand", "max", "min"), ("max", "max", "min")]
 
 
 def make_target(shape: str):
     def target(gen: tvgen.Gen, t: dict, locus: str, depth: int) -> TV:
         old_t = gen.cfg.target
         gen.cfg.target = None          # generate the pinned alternative itself
-        gen.shape = None if shape == "rand" else shape
+        if shape.startswith("hetero"):
+            # an array alternative whose elements have prescribed, differing shapes (hooks tend to look at one element)
+            tt = gen.m.resolve_alias(t)
+            if tt["kind"] == "array":
+                pattern = HETERO_PATTERNS[int(shape[6:]) % len(HETERO_PATTERNS)]
+                items = []
+                try:
+                    for sh in pattern:
+                        gen.shape = None if sh == "rand" else sh
+                        items.append(gen.type(tt["element"], f"{locus}|[]", depth + 1, None))
+                    return tvgen.L(items)
+                finally:
+                    gen.shape = None
+                    gen.cfg.target = old_t
+        gen.shape = None if shape in ("rand",) or shape.startswith("hetero") else shape
         try:
             return gen.type(t, locus, depth, None)
         finally:
